@@ -147,20 +147,13 @@ def disconnectMessage (P : LoginParams) (json : String) : String :=
   | .str t => t
   | _ => json
 
-theorem classify_nonStr (P : LoginParams) (j : String) (h : P.jsonText j = .nonStr) :
-    classifyDisconnect P j = .typeError := by
-  simp [classifyDisconnect, h]
-
-theorem classify_str (P : LoginParams) (j : String) (h : P.jsonText j ≠ .nonStr) :
+theorem classify_str (P : LoginParams) (j : String) :
     classifyDisconnect P j =
       match outdatedVersion (disconnectMessage P j) with
       | some v => .versionMismatch v
       | none => .loginDisconnect (disconnectMessage P j) := by
   unfold classifyDisconnect disconnectMessage
-  cases hj : P.jsonText j with
-  | nonStr => exact absurd hj h
-  | str t => rfl
-  | absent => rfl
+  cases hj : P.jsonText j <;> rfl
 
 /-! ### `exec` basics -/
 
